@@ -153,3 +153,68 @@ func VH_C12_zero() {
 	vAssert("O3-back-to-expect1", a.c.smp.state.identity() == smpStateExpect1{}.identity())
 	vReach("end")
 }
+
+// H-C12-tlv: an SMP TLV of every type whose element count field is arbitrary
+// and which carries any number of elements (0..12, each one byte) followed by
+// up to two stray bytes: parsing never panics; it succeeds only if the count
+// field is at least the number of elements the message type needs and that
+// many elements are really there; the elements land in the fields in order.
+//
+// vh: prop=C12 expect=end unwind=200 timeout=60000
+func VH_C12_tlv() {
+	types := []uint16{tlvTypeSMP1, tlvTypeSMP2, tlvTypeSMP3, tlvTypeSMP4, tlvTypeSMPAbort, tlvTypeSMP1WithQuestion}
+	need := []int{6, 11, 8, 3, 0, 6}
+	ti := vChoose("type", len(types))
+	k := vChoose("k", 13)
+	count := vU32("count")
+	var val []byte
+	if types[ti] == tlvTypeSMP1WithQuestion {
+		// (a question without terminator cannot be built here: the count
+		// field that follows contains NUL bytes; VH_C13 covers arbitrary bytes)
+		if vChoose("q", 2) == 0 {
+			val = append(val, 0)
+		} else {
+			val = append(val, 'q', 0)
+		}
+	}
+	val = append(val, byte(count>>24), byte(count>>16), byte(count>>8), byte(count))
+	elems := vBytes("e", k)
+	for i := 0; i < k; i++ {
+		vAssume(elems[i] != 0)
+		val = append(val, 0, 0, 0, 1, elems[i])
+	}
+	val = append(val, vBytes("junk", vChoose("junk", 3))...)
+	t := tlv{tlvType: types[ti], tlvLength: uint16(len(val)), tlvValue: val}
+	m, ok := t.smpMessage()
+	vObserve("smptlv", ti, k, ok)
+	if types[ti] == tlvTypeSMPAbort {
+		vAssert("abort-always-parses", ok)
+		vReach("end")
+		return
+	}
+	if ok {
+		vAssert("ok-needs-count-and-elements", vAll(int64(count) >= int64(need[ti]), int64(count) <= int64(k)))
+		var got []*big.Int
+		switch mm := m.(type) {
+		case smp1Message:
+			got = []*big.Int{mm.g2a, mm.c2, mm.d2, mm.g3a, mm.c3, mm.d3}
+		case smp2Message:
+			got = []*big.Int{mm.g2b, mm.c2, mm.d2, mm.g3b, mm.c3, mm.d3, mm.pb, mm.qb, mm.cp, mm.d5, mm.d6}
+		case smp3Message:
+			got = []*big.Int{mm.pa, mm.qa, mm.cp, mm.d5, mm.d6, mm.ra, mm.cr, mm.d7}
+		case smp4Message:
+			got = []*big.Int{mm.rb, mm.cr, mm.d7}
+		}
+		vAssert("ok-all-fields-set", len(got) == need[ti])
+		for i, g := range got {
+			vAssert("ok-field-present", g != nil)
+			if g != nil && i < k {
+				vAssert("ok-field-in-order", vBigEq(g, new(big.Int).SetBytes(elems[i:i+1])))
+			}
+		}
+	} else {
+		// refused: either the count field or the data falls short )
+		vAssert("refused-only-when-short", vAny(int64(count) < int64(need[ti]), int64(count) > int64(k)))
+	}
+	vReach("end")
+}
